@@ -368,11 +368,19 @@ func VH_C10_ConcurrentBatch() {
 		c.Offset()
 		fin++
 	}()
+	go func() {
+		// deadline setters racing with the I/O of the other goroutines
+		c.SetDeadline(time.Unix(2000000000, 0))
+		c.SetReadDeadline(time.Time{})
+		c.SetWriteDeadline(time.Unix(2000000001, 0))
+		c.SetRequiredAcks(1)
+		fin++
+	}()
 	for i := 0; i < 6; i++ {
 		vhRunAll()
 	}
 	vhGuardCheck(false)
-	vhAssert(fin == 3, "every-goroutine-returns")
+	vhAssert(fin == 4, "every-goroutine-returns")
 	c.Close()
 	vhReach("c10-concurrent-batch")
 }
@@ -513,4 +521,93 @@ func VH_C10_ConcurrentTransport() {
 	vhGuardCheck(false)
 	vhAssert(fin == 3, "every-goroutine-returns")
 	vhReach("c10-concurrent-transport")
+}
+
+// C10-H12 (lock hand-off schedule): a partition writer and its batch queue under two concurrent submitters, the
+// linger timer, the sender goroutine and Close: declared guards plus lockset analysis over partitionWriter and
+// batchQueue (created by a first write, then watched).
+func VH_C10_ConcurrentPartitionWriter() {
+	vhConcreteClock(true)
+	vhHandoff(true)
+	tr := &vhTransport{partitions: 1, budget: 1, fixed: []int{vhAcked, vhAcked, vhAcked, vhAcked, vhAcked, vhAcked, vhAcked, vhAcked}}
+	w := &Writer{Addr: TCP("vh:9092"), Topic: "t", MaxAttempts: 1, BatchSize: 2, BatchTimeout: 10 * time.Millisecond, Transport: tr, RequiredAcks: RequireAll}
+	ctx := context.Background()
+	w.WriteMessages(ctx, Message{Value: []byte{1}}, Message{Value: []byte{2}})
+	for _, ptw := range w.writers {
+		vhGuarded(ptw, "currBatch", &ptw.mutex)
+		vhGuarded(&ptw.queue, "queue", ptw.queue.mutex)
+		vhGuarded(&ptw.queue, "closed", ptw.queue.mutex)
+		vhWatch(ptw)
+	}
+	vhWatch(w)
+	vhGuardCheck(true)
+	fin := 0
+	for g := 0; g < 2; g++ {
+		g := g
+		go func() {
+			w.WriteMessages(ctx, Message{Value: []byte{byte(10 + g)}})
+			w.WriteMessages(ctx, Message{Value: []byte{byte(20 + g)}}, Message{Value: []byte{byte(30 + g)}})
+			fin++
+		}()
+	}
+	for i := 0; i < 8 && fin < 2; i++ {
+		vhRunAll()
+		time.Sleep(20 * time.Millisecond)
+	}
+	go func() { w.Close(); fin++ }()
+	for i := 0; i < 6 && fin < 3; i++ {
+		vhRunAll()
+	}
+	vhGuardCheck(false)
+	vhAssert(fin == 3, "every-goroutine-returns")
+	vhReach("c10-concurrent-partition-writer")
+}
+
+// C10-H13 (lock hand-off schedule): the connection pool under a sender, a metadata update that replaces a broker and
+// the closing of the pool, all at once.
+func VH_C10_ConcurrentConnPool() {
+	vhHandoff(true)
+	vp := vhNewPool(2, 1)
+	p := vp.p
+	p.refc = 1
+	p.cancel = func() {}
+	p.idleTimeout = time.Minute
+	p.dialTimeout = time.Second
+	p.dial = func(ctx context.Context, network, address string) (net.Conn, error) { return nil, vhErrCoordinator }
+	vhGuarded(p, "conns", &p.mutex)
+	vhWatch(p)
+	for _, g := range []*connGroup{p.conns[vp.ids[0]], p.conns[vp.ids[1]], p.ctrl} {
+		vhGuarded(g, "idleConns", &g.mutex)
+		vhGuarded(g, "closed", &g.mutex)
+		vhWatch(g)
+	}
+	vhGuardCheck(true)
+	ctx := context.Background()
+	fin := 0
+	go func() {
+		req := &pproduce.Request{Topics: []pproduce.RequestTopic{{Topic: "t", Partitions: []pproduce.RequestPartition{{Partition: 0}}}}}
+		p.sendRequest(ctx, req, p.grabState())
+		p.sendRequest(ctx, &meta.Request{}, p.grabState())
+		p.sendRequest(ctx, req, p.grabState())
+		fin++
+	}()
+	go func() {
+		md := &meta.Response{ControllerID: vp.leaders[0]}
+		md.Brokers = append(md.Brokers, meta.ResponseBroker{NodeID: vp.leaders[0], Host: "h", Port: 9092})
+		md.Brokers = append(md.Brokers, meta.ResponseBroker{NodeID: vp.ids[0] + vp.ids[1] + 1, Host: "n", Port: 9099})
+		md.Topics = []meta.ResponseTopic{{Name: "t", Partitions: []meta.ResponsePartition{{PartitionIndex: 0, LeaderID: vp.leaders[0]}}}}
+		p.update(ctx, md, nil)
+		fin++
+	}()
+	go func() {
+		p.unref()
+		fin++
+	}()
+	for i := 0; i < 12 && fin < 3; i++ {
+		vhRunAll()
+		time.Sleep(time.Second)
+	}
+	vhGuardCheck(false)
+	vhAssert(fin == 3, "every-goroutine-returns")
+	vhReach("c10-concurrent-connpool")
 }
